@@ -59,7 +59,9 @@ def _run(tier, seed, replay=None):
     r = vlib.tlc_must_pass("WorkUnit", cfg, wd, timeout=2400, heap="10g")
     r2 = vlib.tlc_must_pass("WorkUnit", "WorkUnit_ids.cfg", wd, timeout=1200)
     variants = {"CancelKeepsSucceeded=FALSE (the repaired defect)":
-                variant(wd, "wu_cancel_asis.cfg", [("CancelKeepsSucceeded = TRUE", "CancelKeepsSucceeded = FALSE")], "SucceededIsFinal")}
+                variant(wd, "wu_cancel_asis.cfg", [("CancelKeepsSucceeded = TRUE", "CancelKeepsSucceeded = FALSE")], "SucceededIsFinal"),
+                "UnregFirst=TRUE (index entry deleted before the files: a concurrent look-up re-registers the unit)":
+                variant(wd, "wu_unregfirst.cfg", [("UnregFirst = FALSE", "UnregFirst = TRUE")], "ReleaseRemoves")}
     wit = vlib.witnesses("WorkUnit", "WorkUnit_quick.cfg", ["W_NoCanceled", "W_NoRelease"] if tier == "quick" else ["W_NoSucceeded", "W_NoCanceled", "W_NoRelease", "W_NoKilled"], wd)
 
     rec = vlib.build_receptor()
